@@ -16,10 +16,10 @@ package main
 // statically reaches it. If the dependency is repaired the obligation disappears by itself.
 
 import (
-	"os"
 	"fmt"
 	"go/token"
 	"go/types"
+	"os"
 	"sort"
 	"strings"
 
@@ -224,6 +224,7 @@ func checkDependencyPanics(c *Ctx, rule string, ri *reachInfo) {
 			panicky[st.Parent()] = why
 		}
 	}
+	lastNilSites = panicky
 	c.Extra("dependency_nil_receiver_sites", len(panicky))
 	if len(panicky) == 0 {
 		c.Pass(rule, "no pointer that is nil on some path is kept in a field and dereferenced as a receiver in the reachable part of the dependency", token.NoPos, fmt.Sprintf("%d functions", len(dep)))
@@ -331,4 +332,135 @@ func (c *Ctx) relAny(p token.Pos) string {
 		return s[i+len("/pkg/mod/"):]
 	}
 	return s
+}
+
+// reviewed explicit panics of the dependency that module code can reach by static calls: function -> why no input gets there
+var reviewedDepPanics = map[string]string{
+	"github.com/moorara/algo/grammar.(CFG).AddNewNonTerminal":     "panics when the start symbol and all four primed variants of it (U+2032..U+2057) are non-terminals already: user non-terminals are IDENT tokens, ASCII letters, digits and underscore (R5.1), and synthesised names are ASCII (R1.2), so no name ends in a prime",
+	"github.com/moorara/algo/grammar.(CFG).ComputeFIRST":          "panics on a body symbol that is neither a terminal nor a non-terminal of the grammar: every symbol of a production is registered by the action that creates it, and CFG.Verify (R7.1) precedes table construction",
+	"github.com/moorara/algo/grammar.(CFG).ComputeFOLLOW":         "panics when asked for a non-terminal the grammar does not have: the table builders ask for heads of the grammar's own productions",
+	"github.com/moorara/algo/parser/lr.(Item0).Compare":           "panics when an LR(0) item is compared with an item of another kind: every item set is filled by one builder with one kind of item",
+	"github.com/moorara/algo/parser/lr.(Item1).Compare":           "panics when an LR(1) item is compared with an item of another kind: every item set is filled by one builder with one kind of item",
+	"github.com/moorara/algo/parser/lr.(PrecedenceHandle).String": "panics on a handle that is neither a terminal nor a production: the module builds handles with the dependency's two single-kind constructors only (R12.2), as does the dependency; a nil handle (R14.9) does not get here, fmt prints a nil receiver as <nil>",
+	"github.com/moorara/algo/parser/lr.cmpPrecedenceHandle":       "panics on a handle that is neither a terminal nor a production: as for PrecedenceHandle.String; used to sort the handles of a level, which the module's actions built with the two constructors",
+	"github.com/moorara/algo/symboltable.NewQuadraticHashTable":   "panics on an initial capacity that is not a prime >= the minimum: the module passes the constant 89 in one options literal, the dependency's own callers pass constants or the default",
+}
+
+// checkDependencyExplicitPanics: R14.10, an inventory. Every explicit panic statement of the dependency that module code reaches
+// (RTA call graph; closures of a function count for it) must be in the reviewed table above; one that is not is undecided, not a
+// violation: somebody has to read it.
+func checkDependencyExplicitPanics(c *Ctx, rule string, ri *reachInfo) {
+	reach := map[*ssa.Function]bool{}
+	var work []*ssa.Function
+	push := func(g *ssa.Function) {
+		if g != nil && len(g.Blocks) > 0 && strings.HasPrefix(fnPkgPath(g), depPath) && !reach[g] {
+			reach[g] = true
+			work = append(work, g)
+		}
+	}
+	for _, f := range ri.module() {
+		if strings.HasSuffix(fnPkgPath(f), "parser/generate") {
+			continue
+		}
+		allCalls(f, func(call ssa.CallInstruction) { push(call.Common().StaticCallee()) })
+	}
+	for len(work) > 0 {
+		f := work[len(work)-1]
+		work = work[:len(work)-1]
+		allCalls(f, func(call ssa.CallInstruction) { push(call.Common().StaticCallee()) })
+		for _, af := range f.AnonFuncs {
+			push(af)
+		}
+	}
+	// functions reached through interface calls as well (RTA): more of them, same question
+	for _, f := range ri.nonStd() {
+		if strings.HasPrefix(fnPkgPath(f), depPath) && len(f.Blocks) > 0 {
+			reach[f] = true
+		}
+	}
+	sites := map[string]token.Pos{}
+	for f := range reach {
+		for _, b := range f.Blocks {
+			for _, in := range b.Instrs {
+				pn, ok := in.(*ssa.Panic)
+				if !ok || !pn.Pos().IsValid() {
+					continue // panics without a position are the compiler's range-over-func protocol checks
+				}
+				top := f
+				for top.Parent() != nil {
+					top = top.Parent()
+				}
+				sites[qualifiedFuncName(top)] = pn.Pos()
+			}
+		}
+	}
+	var names []string
+	for n := range sites {
+		names = append(names, n)
+	}
+	sort.Strings(names)
+	for _, n := range names {
+		key := "explicit panic in " + n + " (dependency, reachable from module code)"
+		if why, ok := reviewedDepPanics[n]; ok {
+			c.Pass(rule, key, token.NoPos, "reviewed: "+why)
+		} else {
+			c.Undecided(rule, key, token.NoPos, "an explicit panic of the dependency became reachable that has not been reviewed ("+c.relAny(sites[n])+")")
+		}
+	}
+	c.Extra("dependency_functions_reached_by_static_calls", len(reach))
+	c.Extra("dependency_explicit_panic_functions", names)
+}
+
+// lastNilSites: the functions of the dependency found by checkDependencyPanics to keep a nil pointer that is dereferenced later.
+var lastNilSites map[*ssa.Function]string
+
+// checkRecoveredPanicOrder (R15.4): a panic of the dependency that the module recovers from becomes a diagnostic. If the place
+// where the nil pointer is kept is the body of a loop over one of the dependency's unordered collections (a range-over-func
+// over set.Set, whose iteration order changes from run to run), then whether a given input takes the panic path or the
+// ordinary error path depends on that order: one specification, two different diagnostics.
+func checkRecoveredPanicOrder(c *Ctx, rule string, ri *reachInfo) {
+	quiet := &Ctx{Prop: c.Prop, Repo: c.Repo, Fset: c.Fset, Pkgs: c.Pkgs, All: c.All, Prog: c.Prog, SSAPk: c.SSAPk,
+		floors: map[string]int{}, ruleDoc: map[string]string{}, analysedF: map[string]bool{}, analysedP: map[string]bool{}, extra: map[string]any{}}
+	checkDependencyPanics(quiet, "R14.9", ri)
+	n := 0
+	var fns []*ssa.Function
+	for f := range lastNilSites {
+		fns = append(fns, f)
+	}
+	sort.Slice(fns, func(i, j int) bool { return fns[i].String() < fns[j].String() })
+	for _, f := range fns {
+		parent := f.Parent()
+		if parent == nil {
+			continue
+		}
+		// parent calls  X.All()(closure f)  with X one of the dependency's set types
+		overSet := ""
+		allCalls(parent, func(call ssa.CallInstruction) {
+			com := call.Common()
+			passes := false
+			for _, a := range com.Args {
+				if mc, ok := a.(*ssa.MakeClosure); ok && mc.Fn == ssa.Value(f) {
+					passes = true
+				}
+			}
+			if !passes {
+				return
+			}
+			if it, ok := com.Value.(*ssa.Call); ok && it.Call.IsInvoke() && it.Call.Method.Name() == "All" {
+				if pk, tn := namedTypeName(it.Call.Value.Type()); strings.HasPrefix(pk, depPath+"/set") {
+					overSet = pk + "." + tn
+				}
+			}
+		})
+		if overSet == "" {
+			continue
+		}
+		n++
+		c.Fail(rule, "a recovered panic of the dependency is taken or not depending on the iteration order of an unordered collection: "+shortFn(parent), token.NoPos,
+			"the nil pointer is kept inside a loop over "+overSet+" (hash-based, its order differs from run to run): for an input that reaches it, one run ends in the recovered panic's message and another in the ordinary conflict report: "+lastNilSites[f],
+			"grammar x; start = start | \"a\";  run a dozen times: two different diagnostics")
+	}
+	if n == 0 {
+		c.Pass(rule, "no recovered panic of the dependency depends on the iteration order of an unordered collection", token.NoPos, "")
+	}
 }
